@@ -7,10 +7,9 @@ From SV Require Import lib.Bytes lib.KeySort lib.Base85 model.HashTypes gen.GenH
 Import ListNotations.
 Open Scope N_scope.
 
-(* a digest as hash.py produces them: bytes; a SHA-256 value (any whole number of 32-bit words) or
-   the placeholder of FileHash.unknown() *)
-Definition digest_json_ok (d : str) : bool :=
-  is_bytes d && (Nat.eqb (Nat.modulo (length d) 4) 0 || str_eqb d unknown_digest).
+(* a digest is a byte string (every element below 256); any length: SHA-256 values, the placeholder
+   b"u" of FileHash.unknown(), and whatever else a bytes field may hold *)
+Definition digest_json_ok (d : str) : bool := is_bytes d.
 
 Definition fhash_eqb_all (a b : fhash) : bool :=
   str_eqb (fh_digest a) (fh_digest b) && (fh_mode a =? fh_mode b) && (fh_mtime a =? fh_mtime b)
